@@ -3,6 +3,7 @@ package main
 import (
 	stdjson "encoding/json"
 	"fmt"
+	"math/rand"
 	"reflect"
 	"sort"
 	"strings"
@@ -22,7 +23,27 @@ func typeAddrOf(v interface{}) uintptr {
 	return uintptr((*c14Iface)(unsafe.Pointer(&v)).typ)
 }
 
+// c14DynTypes: run-time struct types (their descriptors live on the heap, outside the analysed range)
+func c14DynTypes() []reflect.Type {
+	var dyn []reflect.Type
+	for i := 0; i < 60; i++ {
+		dyn = append(dyn, reflect.StructOf([]reflect.StructField{{Name: fmt.Sprintf("D%03d", i), Type: reflect.TypeOf(0), Tag: reflect.StructTag(fmt.Sprintf(`json:"D%03d"`, i))}}))
+	}
+	return dyn
+}
+
 func runC14(c *Ctx) {
+	if !c.IsWorker() {
+		c14Static(c)
+	}
+	// 4. end to end, each history in a process of its own (cold caches; a crash is a failing case)
+	c.Chunk = 1
+	c.RunCases("e2e", 3, func(c *Ctx, k int, rng *rand.Rand) { c14E2E(c, rng) }, func(k int, rng *rand.Rand) string {
+		return fmt.Sprintf("history %d: every generated struct type, its pointer, container families and 60 run-time types, marshalled and unmarshalled twice in a random order in a fresh process", k)
+	}, nil)
+}
+
+func c14Static(c *Ctx) {
 	c.Rep.Rule = "ops: analyze(typelinks of this binary), cidx(base,max,range,shift,addr) for every type address of 900 generated struct types, their pointer/slice/map/array types, run-time (reflect) types and boundary addresses, against the Lean model; " +
 		"oracle: the layout hypothesis measured on the real addresses, and end-to-end identity (each type's own field name in Marshal output / Unmarshal target) in random order, cold and warm; non-trivial = every op"
 	base, max, rng, shift := json.VerifTypeAddr()
@@ -65,10 +86,8 @@ func runC14(c *Ctx) {
 		}
 	}
 	// run-time types live on the heap
-	var dyn []reflect.Type
-	for i := 0; i < 60; i++ {
-		t := reflect.StructOf([]reflect.StructField{{Name: fmt.Sprintf("D%03d", i), Type: reflect.TypeOf(0), Tag: reflect.StructTag(fmt.Sprintf(`json:"D%03d"`, i))}})
-		dyn = append(dyn, t)
+	dyn := c14DynTypes()
+	for _, t := range dyn {
 		add(reflect.New(t).Elem().Interface())
 		add(reflect.New(t).Interface())
 		add(reflect.MakeSlice(reflect.SliceOf(t), 0, 0).Interface())
@@ -126,23 +145,44 @@ func runC14(c *Ctx) {
 			usedIdx[ei] = a
 		}
 	}
-	// 4. end to end: each value is encoded/decoded by the program of its own type
-	order := c.Rng.Perm(len(c14Vals))
+}
+
+// c14Marshal: Marshal with a fault turned into a reportable error
+func c14Marshal(v interface{}) ([]byte, error) {
+	out, err, pan := safeMarshal(func() ([]byte, error) { return json.Marshal(v) })
+	if pan != "" {
+		return out, fmt.Errorf("PANIC %s", pan)
+	}
+	return out, err
+}
+
+func c14Unmarshal(b []byte, p interface{}) error {
+	_, err, pan := safeMarshal(func() ([]byte, error) { return nil, json.Unmarshal(b, p) })
+	if pan != "" {
+		return fmt.Errorf("PANIC %s", pan)
+	}
+	return err
+}
+
+// c14E2E: each value is encoded/decoded by the program of its own type, whatever was processed before
+func c14E2E(c *Ctx, rng *rand.Rand) {
+	dyn := c14DynTypes()
+	order := rng.Perm(len(c14Vals))
 	for round := 0; round < 2; round++ {
 		for _, i := range order {
 			v := c14Vals[i]
 			want := fmt.Sprintf(`{"F%04d":%d}`, i, i)
-			got, err := json.Marshal(v)
+			got, err := c14Marshal(v)
 			c.Oracle("e2e/marshal", fmt.Sprintf("%T", v), fmt.Sprintf("%s err=%v", got, err), want, err == nil && string(got) == want, "")
 			p := c14News[i]()
-			err = json.Unmarshal([]byte(fmt.Sprintf(`{"F%04d":7}`, i)), p)
+			err = c14Unmarshal([]byte(fmt.Sprintf(`{"F%04d":7}`, i)), p)
 			f := reflect.ValueOf(p).Elem().Field(0).Int()
 			c.Oracle("e2e/unmarshal", fmt.Sprintf("%T", p), fmt.Sprintf("%d err=%v", f, err), "7", err == nil && f == 7, "")
-			pg, err := json.Marshal(p)
+			pg, err := c14Marshal(p)
 			c.Oracle("e2e/marshal-ptr", fmt.Sprintf("%T", p), fmt.Sprintf("%s err=%v", pg, err), `{"F…":7}`, err == nil && string(pg) == fmt.Sprintf(`{"F%04d":7}`, i), "")
 		}
 		for _, v := range c14Slices {
-			g, e1 := json.Marshal(v)
+			g, e1 := c14Marshal(v)
 			s, e2 := stdjson.Marshal(v)
 			c.Oracle("e2e/containers", fmt.Sprintf("%T", v), fmt.Sprintf("%s err=%v", g, e1), string(s), e1 == nil && e2 == nil && string(g) == string(s), "")
 		}
@@ -171,16 +211,16 @@ func runC14(c *Ctx) {
 				famCase{reflect.SliceOf(p1), "[" + obj + ",null]"},
 				famCase{p1, "null"}, famCase{p2, "null"})
 		}
-		for _, j := range c.Rng.Perm(len(fam)) {
+		for _, j := range rng.Perm(len(fam)) {
 			fc := fam[j]
 			g := reflect.New(fc.t)
 			s := reflect.New(fc.t)
-			gerr := json.Unmarshal([]byte(fc.doc), g.Interface())
+			gerr := c14Unmarshal([]byte(fc.doc), g.Interface())
 			serr := stdjson.Unmarshal([]byte(fc.doc), s.Interface())
 			ok := (gerr == nil) == (serr == nil) && reflect.DeepEqual(g.Interface(), s.Interface())
 			c.Oracle("e2e/family-dec", fmt.Sprintf("%s <- %s", fc.t, fc.doc), fmt.Sprintf("%v err=%v", g.Elem().Interface(), gerr), fmt.Sprintf("%v err=%v", s.Elem().Interface(), serr), ok, "")
 			if serr == nil {
-				gb, e1 := json.Marshal(s.Elem().Interface())
+				gb, e1 := c14Marshal(s.Elem().Interface())
 				sb, e2 := stdjson.Marshal(s.Elem().Interface())
 				c.Oracle("e2e/family-enc", fc.t.String(), fmt.Sprintf("%s err=%v", gb, e1), string(sb), e1 == nil && e2 == nil && string(gb) == string(sb), "")
 			}
@@ -189,10 +229,10 @@ func runC14(c *Ctx) {
 			v := reflect.New(t)
 			v.Elem().Field(0).SetInt(int64(i))
 			want := fmt.Sprintf(`{"D%03d":%d}`, i, i)
-			g, err := json.Marshal(v.Interface())
+			g, err := c14Marshal(v.Interface())
 			c.Oracle("e2e/dynamic", t.String(), fmt.Sprintf("%s err=%v", g, err), want, err == nil && string(g) == want, "")
 			d := reflect.New(t)
-			err = json.Unmarshal([]byte(fmt.Sprintf(`{"D%03d":9}`, i)), d.Interface())
+			err = c14Unmarshal([]byte(fmt.Sprintf(`{"D%03d":9}`, i)), d.Interface())
 			c.Oracle("e2e/dynamic-dec", t.String(), fmt.Sprintf("%d err=%v", d.Elem().Field(0).Int(), err), "9", err == nil && d.Elem().Field(0).Int() == 9, "")
 		}
 	}
